@@ -6,7 +6,7 @@ CONSTANTS
   MaxRows = 2
   MaxVal = 4
   Modes2 = {"plain", "replace"}
-  MaxId = 4
+  MaxId = 3
 VIEW View
 CONSTRAINT Bounded
 INVARIANTS InvPKUnique InvUniqueIdx InvNotNull InvChecks InvGenerated InvAutoCovers
